@@ -9,11 +9,24 @@ C17 — Entity-manifest slicing keeps everything authorization needs.
    and erroring policies as authorization over the full store."
 
 Model: Cedar/Manifest.lean (`manifestOfExpr` = `entity_manifest_from_expr` on the typed AST, `toTypedRoots` = `to_typed`,
-`sliceStore` = `EntityManifest::slice_entities`).  What is PROVED here:
+`manifestOfEnvs` = the per-request-type body of `compute_entity_manifest`, `sliceStore` = `EntityManifest::slice_entities`).
+What is PROVED here:
 
   * `slice_monotone`             a larger trie keeps more of every value (attributes) and requests more ancestors;
   * `slice_preserves_requested`  every path the trie lists leads, in the slice of a value, to the slice of what it led to;
                                  non-record leaves are kept unchanged;
+  * `slicer_meets_spec`          THE SLICER MEETS ITS SPECIFICATION: for a trie with unique children keys whose
+                                 `is_entity_type` annotations agree with the data, the store computed by the model's slicer
+                                 (`sliceStorePure`: slice_entity / slice_val on pruned tries, the loading loop, merge of
+                                 slices per entity, compute_ancestors_request / load_ancestors) is a sub-store of the full
+                                 store (`slice_is_substore`, unconditional) and covers the trie: requested attributes,
+                                 every entity reachable along trie paths from the roots, requested ancestors
+                                 (Lemmas/Manifest{Merge,Load,Slicer}.lean).  `slicer_needs_agreeing_annotations` shows the
+                                 annotation hypothesis cannot be dropped.  Both hypotheses are PROVED for manifests:
+                                 `manifestOfExpr_wf` + `toTypedRoots_wf` (unique keys, given record types with unique
+                                 attribute names, `TypesUK`), `flagsRoots_typed` (annotations, given data that conforms to
+                                 the schema as far as the trie looks, `ConfRoots`); `coverRoots_untyped`: a store covering
+                                 the annotated (pruned) trie covers the analysis' trie (Lemmas/Manifest{Typed,WF}.lean);
   * `manifest_sound_partial`     CORE FRAGMENT (`InFrag`: literals, variables, `.`/`has` chains through records and
                                  entities, `&& || !`, `if` (also producing entities / records that are dereferenced),
                                  unary `-`, `isEmpty`, `== < <= + - *`, `in` (entity and set right-hand sides, with the
@@ -21,13 +34,23 @@ Model: Cedar/Manifest.lean (`manifestOfExpr` = `entity_manifest_from_expr` on th
                                  of binary operators must not be records): every store that is a sub-store of the full
                                  store and *covers* the trie computed by the analysis evaluates the expression exactly as
                                  the full store does (same value up to dropped record fields, same error);
-  * `response_sliced_partial`    lifted to the authorizer: same `Response` (decision, reasons, errors), hence by C01 the
-                                 decision over the slice is characterised by the satisfied policies over the FULL store.
+  * `manifest_sound_sliced`      the same for THE STORE `sliceStore (manifestOfEnvs …)` COMPUTES — analysis, `to_typed`,
+                                 slicer composed; no hypothesis about the slice is left;
+  * `response_sliced_partial`, `response_sliced_static`, `decision_sliced_*`
+                                 lifted to the authorizer: same `Response` (decision, reasons, errors), hence by C01 the
+                                 decision over the slice is characterised by the satisfied policies over the FULL store;
+                                 `_static`: for static policies with conditions in the fragment, over the slice the model
+                                 computes for their manifest;
+  * `full_statement_of_fragment` `FullStatement` (with its precise exclusions: typed-False environments, templates, tags,
+                                 unknowns, slicer failure exits) holds for every notion of typed AST / conformance such that
+                                 typed ASTs are in the fragment and conformance implies `CtxWF`, `SafeOps` (type soundness)
+                                 and `ConfRoots` (trie-directed conformance).
 
-What is only STATED (and sampled by the correspondence run, driver op `mspec`): `SlicerMeetsSpec` — the store computed by
-`sliceStore` is a sub-store that covers the trie it was given.  The full property is `FullStatement`.  It is FALSE for
-the analysed code outside the proved fragment in two ways found by this check (see `typed_false_environment_breaks_slicing`
-and known_findings.jsonl): request environments in which the typechecker types a policy `False` contribute nothing to the
+What REMAINS: enlarging `InFrag` (record / set literals, `==` / `contains` on records, extension calls); deriving `SafeOps`
+and `ConfRoots` from C03's type soundness and C11's conformance theorems (`ConfRoots` has a sound executable checker,
+`confRootsB`); the "keeps more entities" half of `slice_monotone`.  `FullStatement` is FALSE for the analysed code outside
+the stated exclusions' complement in two ways found by this check (see `typed_false_environment_breaks_slicing` and
+known_findings.jsonl): request environments in which the typechecker types a policy `False` contribute nothing to the
 manifest although evaluating the policy reads data, and template slots are analysed as the request variable.
 -/
 namespace Cedar.C17
